@@ -225,7 +225,9 @@ class Uploader:
         t0 = time.perf_counter()
         js = None
         try:
-            r = self.c.open(url, method=method, **kw)
+            import contextlib
+            with contextlib.redirect_stdout(c16_http._DEVNULL):
+                r = self.c.open(url, method=method, **kw)
             status = r.status_code
             if r.is_json:
                 js = r.get_json(silent=True)
